@@ -11,35 +11,35 @@ ADD = {
  'C03': ("argument-flow rules on policy construction; contradiction rule on the coarse_enough tests; sorted-operand rule for the 16-thread SpGEMM switch",
          "Also decided: every coarsening / relaxation policy object of setup and rebuild is constructed from the configured parameters, every test against coarse_enough is the strict `rows > coarse_enough`, the operators handed to the SpGEMM (P, R, coarse A) are sorted, product dispatch and factor order of the marker-based SpGEMM."),
  'C05': ("inner-product argument-role analysis (conjugation side), cycle analysis of operator applications against counter updates, freshness dataflow of normalisers, last-writer dataflow of x increments, type-level lint on the complex instantiation of the plane rotation",
-         "Also decided: conjugate-linearity is used on the correct side in every projection coefficient and shadow-vector product (found and repaired BiCGStab and IDR(s)), plane rotations of the GMRES family are unitary for complex scalars (found and repaired), with maxiter = k exactly k operator applications are counted, basis vectors are normalised with a fresh norm, x is x0 plus solution-space increments."),
+         "Also decided: conjugate-linearity is used on the correct side in every projection coefficient and shadow-vector product (found and repaired BiCGStab and IDR(s)), plane rotations of the GMRES family are unitary for complex scalars (found and repaired), with maxiter = k exactly k operator applications are counted, basis vectors are normalised with a fresh norm, x is x0 plus solution-space increments, the applied rotation is the unitary completion of its annihilating row."),
  'C06': ("sibling rules over the ILU constructors; CFG path rules on the level schedules",
-         "Also decided: the inverted pivot is the right factor of the elimination multiplier in ilu0 / iluk / ilut, the level of fill of ILU(k) is lowered on exactly the paths that accumulate a contribution, the Chebyshev bounds belong to the scaled / unscaled operator used, the level schedules of the triangular solves cover every level and derive the level of a row from all its entries."),
+         "Also decided: the inverted pivot is the right factor of the elimination multiplier in ilu0 / iluk / ilut, the level of fill of ILU(k) is lowered on exactly the paths that accumulate a contribution, the Chebyshev bounds belong to the scaled / unscaled operator used, the level schedules of the triangular solves cover every level and derive the level of a row from all its entries, SPAI-0 takes the adjoint of the diagonal entry as numerator (found and repaired for complex matrices)."),
  'C07': ("loop-extent rule on output writes; type-level rules and compile-time witnesses on the block views",
          "Also decided: kernels that write an output write its full extent, a scalar vector viewed as block vector keeps its own precision and the view covers exactly the bytes of the vector (canonical types per mixed-precision instantiation), inner products conjugate their second argument for every value type, 21 type identities of the value-type traits (compile-time witnesses)."),
  'C08': ("cursor-discipline path rule for grouped scans, scope rule for flagged min/max reductions, def-use rule in the power iteration, zero-instance binary-search rule with positive control",
          "Also decided: in the block-to-pointwise reduction an element that opens the next block column is not consumed by the scan that rejects it (found and repaired), the first-element flag of a block maximum is armed outside the loops the reduction runs over, the power iteration accumulates the norm of the vector it stores, no binary search over unsorted rows."),
  'C09': ("nowait phase analysis, path rules on the schedule constructors (final level, whole-row maximum), zero-instance resize rule with positive control",
-         "Also decided: nothing written in an `omp for nowait` loop is touched before the next barrier, all levels of the schedules are turned into tasks, the level that pushes not-yet-swept neighbours is final, the ILU level is a maximum over the whole row, thread-private scratch objects (QR) are not 're-initialised' by resize(n, v), operators handed to the thread-count dependent SpGEMM switch are sorted."),
+         "Also decided: nothing written in an `omp for nowait` loop is touched before the next barrier, all levels of the schedules are turned into tasks, the level that pushes not-yet-swept neighbours is final, the ILU level is a maximum over the whole row, thread-private scratch objects (QR) are not 're-initialised' by resize(n, v), operators handed to the thread-count dependent SpGEMM switch are sorted, an owned index does not make a write to a bit-packed container (std::vector<bool>) exclusive."),
  'C10': ("scratch re-initialisation dataflow per loop iteration, null-dereference guard dataflow with sibling contradiction, exception / OpenMP region rule, shared history-freedom rules",
          "Also decided: local C arrays are initialised before any read (also per participating thread), scratch handed whole to a callee is rebuilt in every iteration, a shared_ptr that a sibling path guards is not dereferenced unguarded (found and repaired cpr_drs), no exception can leave an OpenMP region, the cycle and the zero-coefficient primitives do not read stale memory."),
  'C11': ("polynomial normal forms of message offsets / counts, may-analysis of in-flight nonblocking buffers, exact path condition on keep_src, sentinel rule, MPI datatype size rule (constant evaluation)",
-         "Also decided: MPI datatypes cover the whole value for every block / complex type, global reductions use the operator of the local accumulation, a slice is sent from / received into its own position, buffers of nonblocking operations are neither modified nor out of scope before completion (found and repaired the loop-local count buffer of PMIS), move_to_backend(keep_src) leaves the source matrices intact, a column count of 0 is not 'not given', per-row sums cover the ghost columns."),
+         "Also decided: MPI datatypes cover the whole value for every block / complex type, global reductions use the operator of the local accumulation, a slice is sent from / received into its own position, buffers of nonblocking operations are neither modified nor out of scope before completion (found and repaired the loop-local count buffer of PMIS), move_to_backend(keep_src) leaves the source matrices intact, a column count of 0 is not 'not given', per-row sums cover the ghost columns, the requests of start_exchange are waited for on every path of finish_exchange, converting copy constructors copy member by member."),
  'C12': ("loop-nesting rule for the factor order of mpi::product, shared nonblocking-buffer / message-extent / keep-src rules, cross-class sibling rule for the run-time MPI relaxations",
-         "Also decided: mpi::product multiplies (entry of A) * (entry of B), per-row sums of distributed kernels cover the remote part, messages are taken at their own slice and their buffers stay valid, transfer operators moved with keep_src stay intact, every run-time MPI relaxation is built from the operand its compile-time class uses (Chebyshev from the distributed matrix)."),
+         "Also decided: mpi::product multiplies (entry of A) * (entry of B), per-row sums of distributed kernels cover the remote part, messages are taken at their own slice and their buffers stay valid, transfer operators moved with keep_src stay intact, every run-time MPI relaxation is built from the operand its compile-time class uses (Chebyshev from the distributed matrix), a row is classified as lonely only from both of its parts."),
  'C13': ("symbolic four-state evaluation of the complex adapter, type-level view rules, compile-time witnesses",
-         "Also decided: adapter::complex_matrix presents a + ib as [[a, -b], [b, a]] (evaluated for all states of its iterator), block views keep the scalar of the vector and cover it exactly, blocks gathered by the block adapter are reset per block column, inner products conjugate the second argument, the block adapter is handed sorted rows inside the library (known finding for direct use)."),
+         "Also decided: adapter::complex_matrix presents a + ib as [[a, -b], [b, a]] (evaluated for all states of its iterator), block views keep the scalar of the vector and cover it exactly, blocks gathered by the block adapter are reset per block column, inner products conjugate the second argument, the block adapter is handed sorted rows inside the library (known finding for direct use), flat loops over a static_matrix run over all N*M entries."),
  'C14': ("cross-member and cross-class sibling agreement of the run-time wrappers (operands, exports)",
-         "Also decided: every member of a run-time wrapper dispatches each enumerator with the same operands, exports are unconditional, detail::empty_params reports every key, the run-time MPI relaxation wrapper uses the operand of the compile-time class."),
+         "Also decided: every member of a run-time wrapper dispatches each enumerator with the same operands, exports are unconditional, detail::empty_params reports every key, the run-time MPI relaxation wrapper uses the operand of the compile-time class, the default of every value import is the same-named member of a default-constructed params object."),
  'C15': ("clear()-coverage rule, zero-instance resize rule with positive control, path-conditional documented-domain exemptions",
-         "Also decided: clear() members reset every member other mutators write, member.resize(n, v) is never relied on to re-initialise a reused member, zero-coefficient primitives overwrite; the Schur scratch vectors are exempt only outside the documented parameter domain (path condition), not as a whole."),
+         "Also decided: clear() members reset every member other mutators write, member.resize(n, v) is never relied on to re-initialise a reused member, zero-coefficient primitives overwrite; the Schur scratch vectors are exempt only outside the documented parameter domain (path condition), not as a whole; output container parameters are not 'initialised' by resize(n, v) either (found and repaired rigid_body_modes)."),
  'C16': ("path enumeration over index orderings (profile), loop-nesting rule (LU factor order), integer-width rule on local work arrays",
          "Also decided: the skyline profile covers every store of the copy pass, L entries are the left and U entries the right factor of every update, no wider non-constant integer is stored into a narrower local work array of the reordering / direct kernels."),
  'C17': ("semantic own_data borrowing rule, sortedness rule before the block adapter, move / swap completeness, dimension forwarding, row-scan rule",
-         "Also decided: own_data is cleared exactly where arrays are borrowed, make_block_solver sorts before the block adapter sees the matrix (found and repaired; known finding for direct use of the adapter), move construction / assignment / swap transfer all members, adapters forward rows / cols of the wrapped matrix, gathered blocks are reset, a row scan over a user matrix is left early only on an equality test."),
+         "Also decided: own_data is cleared exactly where arrays are borrowed, make_block_solver sorts before the block adapter sees the matrix (found and repaired; known finding for direct use of the adapter), move construction / assignment / swap transfer all members, adapters forward rows / cols of the wrapped matrix, gathered blocks are reset, a row scan over a user matrix (adapters, backend::diagonal) is left early only on an equality test."),
  'C18': ("reaching-modification rule (Lm), polynomial index rule (deflation), shared sort-on-entry / scratch / null-deref rules",
          "Also decided: the explicit pressure block of the Schur operator is the extracted Kpp (copied before any adjustment), the deflation correction applies E^-1 with the written coefficient as row index, CPR sorts its private copy in constructor and partial_update, the per-cell scratch of the CPR weighting is rebuilt per cell, partial updates dereference only what they built."),
  'C19': ("compile-time evaluation of the written precision per value type, control-dependence rule for the symmetric mirror, polynomial seek-layout rule, integer parse width, sentinel and parallel-region rules",
-         "Also decided: the written precision is max_digits10 of the scalar for every value type, the mirrored entry of a symmetric file depends only on the symmetry flag, i != j and the position of j, every seek of the binary readers equals the section start plus first element times element size (distinct-type instantiation), integers are parsed in the width of their type, row_beg / row_end = -1 is the only 'whole file' value, no exception can leave the parallel row-sorting loop."),
+         "Also decided: the written precision is max_digits10 of the scalar for every value type, the mirrored entry of a symmetric file depends only on the symmetry flag, i != j and the position of j, every seek of the binary readers equals the section start plus first element times element size (distinct-type instantiation), integers are parsed in the width of their type, row_beg / row_end = -1 is the only 'whole file' value, no exception can leave the parallel row-sorting loop, the readers do not rely on resize(n, v) to reset reused output containers."),
  'C20': ("symbolic evaluation of every entry point with helpers inlined",
          "Also decided: amgcl_precond_apply performs exactly amg.apply(rhs, x) and the solve entry points exactly solver([A,] rhs, x) on the cast handle, the matrix arguments are untouched before the solve, read_json forwards the tree unchanged."),
 }
